@@ -1,6 +1,7 @@
 import XpmVerif.Basic.JsonUtil
 import XpmVerif.Model.Clean
 import XpmVerif.Model.CleanLinks
+import XpmVerif.Model.CleanPartial
 import XpmVerif.Generated.FilterSrc
 /-! Line-protocol driver for M9 (C19).  `lake env lean --run Drive/C19.lean < ops.jsonl` -/
 open Lean XpmVerif XpmVerif.J XpmVerif.Filter XpmVerif.Gen
@@ -62,6 +63,9 @@ def llayoutOf (j : Json) : LLayout :=
 
 def linksJ (l : List Link) : Json := Json.arr (l.map (fun x => Json.str (x.key.1 ++ "/" ++ x.key.2))).toArray
 
+def hjobOf (j : Json) : HJob :=
+  { job := jobOf j, hz := { noTags := boolF j "noTags", nonStr := (arrF j "nonStr").map str } }
+
 def cleanOptsOf (j : Json) : CleanOpts :=
   { experiment := optStr (fld j "experiment"),
     filter := if isNull (fld j "filter") then none else some (exprOf (fld j "filter")),
@@ -78,6 +82,7 @@ def scriptOf (s : String) : String := (s.splitOn ".").getLast?.getD s
 def optBoolJ : Option Bool → Json | none => Json.null | some b => Json.bool b
 def optStrJ : Option String → Json | none => Json.null | some s => Json.str s
 def keysJ (l : List Job) : Json := Json.arr (l.map (fun j => Json.str (j.ty ++ "/" ++ j.id))).toArray
+def hkeysJ (l : List HJob) : Json := keysJ (l.map (·.job))
 def stJ (s : Option JState) : Json := optStrJ (s.map JState.name)
 
 def step (_ : Unit) (j : Json) : Unit × Json :=
@@ -108,6 +113,15 @@ def step (_ : Unit) (j : Json) : Unit × Json :=
       let o := orphOptsOf (fld j "opts")
       Json.mkObj [("remaining", keysJ (if src then orphansSrc L o else orphansImpl L o).jobs),
         ("referenced", keysJ (L.jobs.filter (referenced L o)))]
+    | "cleanP" =>
+      -- jobs in enumeration order, with what makes the filter raise on them; policy read from the source
+      let L : HLayout := { jobs := (arrF (fld j "layout") "jobs").map hjobOf, xps := (arrF (fld j "layout") "xps").map xpOf }
+      let o := cleanOptsOf (fld j "opts")
+      let r := cleanPSrc rx L o
+      Json.mkObj [("raised", r.1), ("remaining", hkeysJ r.2.jobs),
+        ("kleene", Json.arr (L.jobs.map (fun hj => match o.filter with
+          | none => Json.str "T"
+          | some e => Json.str (match evalK rx e (infoOf stateSpec hj.job) hj.hz with | .t => "T" | .f => "F" | .e => "E"))).toArray)]
     | "cleanL" =>
       let LL := llayoutOf (fld j "layout")
       let o := cleanOptsOf (fld j "opts")
